@@ -4,6 +4,7 @@
 import CedarProofs.CacheLemmas
 import CedarProofs.Prefix
 import CedarProofs.Keyed
+import CedarProofs.CacheHistory
 import CedarProps.C02
 
 namespace Cedar.C06
@@ -379,5 +380,120 @@ theorem resumed_replay_prefix (req b2 : Bytes) (k : Nat) (ivS ivR : IV) (S S' R'
   have hold : C02.OldConnections k ivS (R0.dig.fr, R0.dig.fs) old :=
     ⟨hiv_fresh, fun f hf ivo c hb hk heq => hnonce_fresh f hf ivo c hb hk _ _ heq hfs⟩
   exact C02.recv_prefix_resumed S S' R0 R' k ivS ivR ops opsR sent own old w hivS hivR hsep hold hsend hown hadv n
+
+/-! ### "never revives a dead session": all orderings
+
+`invalidated_is_dead`, `other_ops_do_not_revive`, `expired_lookup_removes` are single steps. The
+property quantifies over every ordering of cache operations. Below: histories (`List COp`,
+CedarProofs/CacheHistory.lean) over the SessionCache model itself — `Store`, `Invalidate`,
+`InvalidateExpired`, `LookupNonExpired`, `MapCommand`, server resumptions, client resumptions through
+the command map and by explicit id, `storeClientSession` — in any order and number. -/
+
+/-- what "no resumption of `S` succeeds" means in a cache state, at time `now` -/
+def NoResume (c : Cache) (S : Str) (now : Nat) : Prop :=
+  (∀ want nonce ra, (serverResume c now S want nonce ra).2 = (if want then .sidNotFound else .none, none)) ∧
+  (∀ ans ra, (clientById c now S ans ra).2 = .resumeFailed S) ∧
+  (∀ tag addr cmd ans ra sid key user auth,
+      (clientTry c now tag addr cmd ans ra).2 = .resumed sid key user auth → sid ≠ S)
+
+theorem noResume_of_dead (c : Cache) (S : Str) (t now : Nat) (hw : c.WF) (hd : c.DeadAt S t) (ht : t ≤ now) :
+    NoResume c S now := by
+  refine ⟨fun want nonce ra => ?_, fun ans ra => ?_, ?_⟩
+  · apply dead_not_resumed
+    cases hg : c.get S with
+    | none => exact .inl rfl
+    | some e =>
+      obtain ⟨x, hx, hlt⟩ := hd e hg
+      exact .inr ⟨e, rfl, .inl (by simp [Entry.expired, hx]; omega)⟩
+  · have hn := dead_not_found hd ht
+    unfold clientById
+    cases hl : c.lookupNonExpired now S with
+    | mk c1 found =>
+      rw [hl] at hn
+      simp only at hn
+      subst hn
+      rfl
+  · intro tag addr cmd ans ra sid key user auth h
+    unfold clientTry at h
+    split at h
+    · cases h
+    · split at h
+      · cases h
+      · rename_i e hl
+        obtain ⟨sid', _, hg, hlive⟩ := lookupByCommand_id c now tag addr cmd e hl
+        have hne := live_hit_ne hw hd ht hg hlive
+        split at h
+        · cases h
+        · cases ans <;> simp at h
+          rw [← h.1]; exact hne
+
+/-- **dead_stays_dead** (every ordering): let `S` be dead as of time `t` in a well-formed cache —
+    absent, or present with an expiration before `t`. After ANY history of cache operations in which
+    `S` is not stored again (no `Store` / `storeClientSession` of that identifier) and no operation
+    reads a clock earlier than `t`, no resumption of `S` succeeds at any time `≥ t`: the server
+    answers `SID_NOT_FOUND`, a client naming it explicitly fails, and no command-map route resumes
+    it. Since every prefix of a history is a history, this holds at every point along it. -/
+theorem dead_stays_dead (c : Cache) (S : Str) (t : Nat) (ops : List COp)
+    (hwf : c.WF) (hdead : c.DeadAt S t)
+    (hno : ∀ o ∈ ops, o.stores S = false) (htime : ∀ o ∈ ops, ∀ n, o.time = some n → t ≤ n) :
+    ∀ pre post, ops = pre ++ post → ∀ now, t ≤ now → NoResume (c.runOps pre) S now := by
+  intro pre post hsplit now ht
+  subst hsplit
+  exact noResume_of_dead _ S t now (wf_runOps pre c hwf)
+    (dead_runOps pre c S t hwf hdead (fun o ho => hno o (List.mem_append_left _ ho))
+      (fun o ho => htime o (List.mem_append_left _ ho))) ht
+
+/-- **invalidate_wins_history**: any history `pre`, then `Invalidate S`, then any history `post` in
+    which `S` is not stored again: at every point after the invalidation, at every time, no
+    resumption of `S` succeeds. No assumption on the clock (an absent session is dead at time 0). -/
+theorem invalidate_wins_history (c : Cache) (S : Str) (pre post : List COp) (hwf : c.WF)
+    (hno : ∀ o ∈ post, o.stores S = false) :
+    ∀ p1 p2, post = p1 ++ p2 → ∀ now, NoResume (c.runOps (pre ++ .invalidate S :: p1)) S now := by
+  intro p1 p2 hsplit now
+  have hw1 : ((c.runOps pre).invalidate S).WF := wf_invalidate (wf_runOps pre c hwf) S
+  have hd1 : ((c.runOps pre).invalidate S).DeadAt S 0 := by
+    intro e he; rw [get_invalidate_self] at he; cases he
+  have hrun : c.runOps (pre ++ .invalidate S :: p1) = ((c.runOps pre).invalidate S).runOps p1 := by
+    simp [Cache.runOps, List.foldl_append, COp.apply]
+  rw [hrun]
+  exact dead_stays_dead _ S 0 post hw1 hd1 hno (fun _ _ _ _ => Nat.zero_le _) p1 p2 hsplit now (Nat.zero_le _)
+
+/-- **expired_stays_dead_history**: a session whose entry is expired at time `t` (whether or not a
+    lookup has removed it yet) is never resumed afterwards, in any history that does not store it
+    again and whose clock readings are `≥ t`. -/
+theorem expired_stays_dead_history (c : Cache) (S : Str) (t : Nat) (e : Entry) (ops : List COp) (hwf : c.WF)
+    (hg : c.get S = some e) (hx : e.expired t = true)
+    (hno : ∀ o ∈ ops, o.stores S = false) (htime : ∀ o ∈ ops, ∀ n, o.time = some n → t ≤ n) :
+    ∀ pre post, ops = pre ++ post → ∀ now, t ≤ now → NoResume (c.runOps pre) S now := by
+  apply dead_stays_dead c S t ops hwf ?_ hno htime
+  intro e' he'
+  rw [hg] at he'
+  simp only [Option.some.injEq] at he'
+  subst he'
+  unfold Entry.expired at hx
+  cases hexp : e.expiration with
+  | none => simp [hexp] at hx
+  | some x => exact ⟨x, rfl, by simpa [hexp] using hx⟩
+
+/-- every cache reachable from the empty one by these operations is well-formed, so `hwf` is no
+    restriction -/
+theorem reachable_wf (ops : List COp) : (({} : Cache).runOps ops).WF := wf_runOps ops {} wf_empty
+
+/-- the hypothesis "not stored again" is needed, and is the only way back: a `Store` of the
+    identifier after the invalidation makes it resumable again (a new handshake established it) -/
+example : ((cache0.runOps [.invalidate "s1".toList, .store live]).get "s1".toList).isSome = true := by decide
+
+/-! Non-vacuity: a history with resumptions of another session, a sweep, a client-side store and
+    command mapping around an invalidation of "s1" (key 7) meets the hypotheses; "s1" is refused at
+    the end, while before the invalidation it was resumable. -/
+private def histPost : List COp :=
+  [.serverResume 1000 "s2".toList true 1 false, .sweep 1500, .mapCommand [] "a".toList "c".toList "s1".toList,
+   .clientStore "t".toList "a".toList keyless, .clientTry 1600 [] "a".toList "c".toList .authorized false,
+   .clientById 1700 "s1".toList .authorized false, .lookup 1800 "s1".toList]
+example : ∀ o ∈ histPost, o.stores "s1".toList = false := by decide
+example : cache0.WF := wf_store (wf_store wf_empty live) keyless
+example : (serverResume (cache0.runOps ([.serverResume 900 "s1".toList true 3 false] ++ .invalidate "s1".toList :: histPost))
+    2000 "s1".toList true 5).2 = (.sidNotFound, none) := by decide
+example : (serverResume (cache0.runOps [.serverResume 900 "s1".toList true 3 false]) 1000 "s1".toList true 5).2.2.isSome = true := by decide
 
 end Cedar.C06
